@@ -44,6 +44,7 @@ func runSeqPropConc(prop string) func(tb ev.TB, p concProg) ev.Result {
 		afterUnlock := make([]world.Set, len(p.Threads))
 		inAppend := make([]bool, len(p.Threads))
 		var failures []string
+		lastSet := s.initial.Clone()
 		view := func() *commitView {
 			ents, heads := s.log.VerifState()
 			v := &commitView{heads: world.SetOf(world.Hashes(heads)), n: ents.Len()}
@@ -65,6 +66,17 @@ func runSeqPropConc(prop string) func(tb ev.TB, p concProg) ev.Result {
 				if inAppend[e.Thread] {
 					_, heads := s.log.VerifState()
 					afterUnlock[e.Thread] = world.SetOf(world.Hashes(heads))
+				}
+				if prop == "C05" {
+					ents, _ := s.log.VerifState()
+					now := world.SetOf(world.Hashes(ents))
+					for h := range lastSet {
+						if !now.Has(h) {
+							failures = append(failures, fmt.Sprintf("after T%d released the log: entry %s, held before, is gone", e.Thread, world.Short(h)))
+							break
+						}
+					}
+					lastSet = now
 				}
 				if prop == "C02" {
 					ents, heads := s.log.VerifState()
@@ -130,6 +142,44 @@ func runSeqPropConc(prop string) func(tb ev.TB, p concProg) ev.Result {
 						}
 					}
 				}
+			}
+		case "C05":
+			// nothing that was ever in the log or in one of its linearised views is missing from the final view, and
+			// every earlier view is a subsequence of the final one (strict total order) or at least contained in it
+			vals := world.Hashes(s.log.Values())
+			pos := map[string]int{}
+			for i, h := range vals {
+				pos[h] = i
+			}
+			for h := range lastSet {
+				if _, ok := pos[h]; !ok {
+					tb.Fatalf("entry %s is held by the log but missing from its final linearised view\ntrace:\n  %s", world.Short(h), trace)
+				}
+			}
+			for _, a := range s.appends {
+				if _, ok := pos[a.hash]; !ok {
+					tb.Fatalf("entry %s appended by T%d is missing from the final linearised view\ntrace:\n  %s", world.Short(a.hash), a.thread, trace)
+				}
+			}
+			strict := s.w.Reg.StrictTotalOn(s.w.Order, world.SetOf(vals))
+			for _, r := range s.results {
+				if r.kind != "values" && r.kind != "snapshot" {
+					continue
+				}
+				last := -1
+				for _, h := range r.seq {
+					p, ok := pos[h]
+					if !ok {
+						tb.Fatalf("T%d %s saw entry %s which the final linearised view no longer contains\ntrace:\n  %s", r.thread, r.kind, world.Short(h), trace)
+					}
+					if strict && p < last {
+						tb.Fatalf("T%d %s: an earlier linearised view is not a subsequence of the final one (at %s)\ntrace:\n  %s", r.thread, r.kind, world.Short(h), trace)
+					}
+					last = p
+				}
+			}
+			if s.log.Len() < len(lastSet) {
+				tb.Fatalf("Len() %d below the number of entries held %d", s.log.Len(), len(lastSet))
 			}
 		case "C03":
 			vals := world.Hashes(s.log.Values())
@@ -238,6 +288,11 @@ func TestC02Conc(t *testing.T) {
 func TestC03Conc(t *testing.T) {
 	ev.Get("C03")
 	ev.Check(t, "C03", genSeqConc, runSeqPropConc("C03"))
+}
+
+func TestC05Conc(t *testing.T) {
+	ev.Get("C05")
+	ev.Check(t, "C05", genSeqConc, runSeqPropConc("C05"))
 }
 
 func TestC04Conc(t *testing.T) {
